@@ -137,6 +137,11 @@ def run_programs(spec):
             items.append(long_line_file(rng) + ("long_line",))
         if rng.random() < 0.2:
             items.append(non_ascii_file(rng) + ("unicode",))
+        # declaration-shaped statements in random order (G-DECL): whatever the rules make of them, what they report
+        # is well-formed and printed alike in both formats
+        from nv.gen import decls
+        for _ in range(4):
+            items.append(decls.source(rng) + ("decl_shaped",))
         for name, src, kind in items:
             case = {"name": name, "src": src, "mode": "api"}
             r = core.api_run(name, src, clock=False)
